@@ -13,6 +13,7 @@ import json
 import os
 import shutil
 import time
+from concurrent.futures import ThreadPoolExecutor
 
 import vf
 
@@ -54,8 +55,8 @@ ASSUMPTIONS = [
 ]
 
 TIERS = {
-    "quick": dict(mc_bound=3, gen_bound=2, rnd=[(30, 30)], reps=5, wide=None),
-    "thorough": dict(mc_bound=3, gen_bound=3, rnd=[(250, 40), (60, 120)], reps=6, wide=2),
+    "quick": dict(bound=2, actx=2, rnd=[(14, 25)], reps=5, wide=None, shards=8),
+    "thorough": dict(bound=3, actx=3, rnd=[(150, 40), (150, 40), (60, 100)], reps=6, wide=2, shards=10),
 }
 
 
@@ -132,6 +133,32 @@ def judge(rows, rejects, verdict, pred_hits):
                 {"kind": "disco-history", "history": history_of(ev, behs), "predicate": nm})
 
 
+def validate_sharded(rows, work, shards):
+    """TLC judges the distinct events; the file is cut into shards validated by concurrent TLC processes
+    (events are self-contained, so any cut is sound). Returns [(row index 1-based, names)]."""
+    n = len(rows)
+    shards = max(1, min(shards, (n + 999) // 1000))
+    size = (n + shards - 1) // shards
+    jobs = []
+    for k in range(shards):
+        part = rows[k * size:(k + 1) * size]
+        if not part:
+            continue
+        p = os.path.join(work, "unique-%d.ndjson" % k)
+        with open(p, "w") as f:
+            for ev, _, _ in part:
+                f.write(json.dumps({"cmd": ev["cmd"], "pre": ev["pre"], "post": ev["post"], "res": ev["res"]}, separators=(",", ":")))
+                f.write("\n")
+        jobs.append((k * size, p, len(part)))
+    out = []
+    with ThreadPoolExecutor(max_workers=len(jobs)) as ex:
+        futs = [(off, ex.submit(vf.tlc_validate, "DiscoChainTrace", "DiscoChainTrace.cfg", p, nevents=m, timeout=3000, heap="4g")) for off, p, m in jobs]
+        for off, fu in futs:
+            r = fu.result()
+            out += [(off + line, names) for line, names in r.rejects]
+    return out
+
+
 def run(tier):
     t0 = time.time()
     T = TIERS[tier]
@@ -141,43 +168,78 @@ def run(tier):
     verdict = vf.Verdict(PID)
     pred_hits = {}
     cov = {"mc": [], "gen": [], "random": []}
-    states = transitions = 0
     try:
-        # 1. exhaustive model check
-        runs = [("core", T["mc_bound"])] + ([("wide", T["wide"])] if T["wide"] else [])
-        for prof, bound in runs:
-            r = vf.tlc_mc("DiscoChainMC", "mc.cfg", files={"mc.cfg": cfg("DiscoChain_mc.cfg", bound, prof)}, timeout=2400,
-                          heap="12g", workers=min(12, vf.NCPU), coverage=(tier == "thorough" and prof == "core"))
-            states += r.distinct
-            transitions += r.generated
-            cov["mc"].append({"profile": prof, "max_entries": bound, "distinct": r.distinct, "generated": r.generated, "depth": r.depth,
-                              "never_evaluated": r.coverage_zero[:20]})
-            vacuous = [x for x in r.coverage_zero if x in ("Write", "Delete", "InvWellFormed", "InvStoredSetsAlwaysCompile")]
+        # 1.+2. exhaustive model check of the core universe; the same TLC run prints one behaviour per transition
+        # (DiscoChain_gen.cfg = DiscoChain_mc.cfg + EmitProp), which h-disco executes on the real code
+        def check_vacuity(r):
+            vacuous = [x for x in r.coverage_zero if x in ("Write", "Delete", "InvWellFormed", "InvStoredSetsAlwaysCompile", "PropAcceptIsGlobal")]
             if vacuous:
                 raise vf.Infra("vacuous model check: %s never evaluated" % vacuous)
-        # 2. one behaviour per transition of the model, executed on the real code
-        g = vf.tlc_gen("DiscoChainMC", "gen.cfg", files={"gen.cfg": cfg("DiscoChain_gen.cfg", T["gen_bound"])}, timeout=2400, heap="12g")
-        behs = g.traces
-        cov["gen"].append({"profile": "core", "max_entries": T["gen_bound"], "transitions": len(behs)})
-        bf = os.path.join(work, "beh.json")
-        with open(bf, "w") as f:
-            json.dump(behs, f)
-        traces = []
-        tp = os.path.join(work, "gen.ndjson")
-        meta = harness(binary, ["replay", "-in", bf, "-out", tp, "-auto", "-lastonly", "-reps", str(T["reps"]), "-seed", str(seed)], "replay")
-        traces.append(("gen:core", tp, behs, meta))
+
+        def mc_entry(prof, bound, r):
+            return {"profile": prof, "max_entries": bound, "distinct": r.distinct, "generated": r.generated, "depth": r.depth,
+                    "never_evaluated": r.coverage_zero[:20]}
+
+        def generate_and_replay():
+            r = vf.tlc("DiscoChainMC", "gen.cfg", files={"gen.cfg": cfg("DiscoChain_gen.cfg", T["bound"])}, timeout=2400, heap="8g",
+                       workers=min(6, vf.NCPU), coverage=(tier == "thorough"))
+            if r.rc != 0 or r.distinct == 0:
+                raise vf.Infra("model check DiscoChainMC/DiscoChain_gen.cfg failed rc=%s violated=%s\n%s" % (r.rc, r.violated, r.out[-3000:]))
+            if not r.traces:
+                raise vf.Infra("generation printed no behaviours")
+            check_vacuity(r)
+            behs = r.traces
+            bf = os.path.join(work, "beh.json")
+            with open(bf, "w") as f:
+                json.dump(behs, f)
+            tp = os.path.join(work, "gen.ndjson")
+            meta = harness(binary, ["replay", "-in", bf, "-out", tp, "-auto", "-lastonly", "-actx", str(T["actx"]), "-reps", str(T["reps"]),
+                                    "-seed", str(seed)], "replay")
+            return ("gen:core", tp, behs, meta), mc_entry("core", T["bound"], r)
+
+        # the systematic universe, model only (thorough)
+        def model_check_wide():
+            r = vf.tlc_mc("DiscoChainMC", "mc.cfg", files={"mc.cfg": cfg("DiscoChain_mc.cfg", T["wide"], "wide")}, timeout=2400,
+                          heap="8g", workers=min(6, vf.NCPU))
+            return mc_entry("wide", T["wide"], r)
+
+        # the validation scope of the code as written ("direct"), on the MODEL: TLC is expected to find the stored set that
+        # does not compile (informational; the finding itself is judged on the real code in step 4)
+        def model_check_direct():
+            r = vf.tlc("DiscoChainMC", "DiscoChain_direct.cfg", timeout=1200, heap="4g", workers=2, quiet=True)
+            return {"cfg": "DiscoChain_direct.cfg", "violated_on_model": r.violated, "distinct": r.distinct}
+
         # 3. seeded random histories over the larger universe
-        for i, (n, length) in enumerate(T["rnd"]):
+        def random_run(i, n, length):
             tp = os.path.join(work, "rnd-%d.ndjson" % i)
             s = seed + i * 7919
             meta = harness(binary, ["random", "-seed", str(s), "-n", str(n), "-len", str(length), "-out", tp, "-reps", str(T["reps"])], "random")
-            traces.append(("random:%d" % s, tp, random_histories(tp), meta))
-            cov["random"].append({"histories": n, "length": length, "seed": s, "events": meta["events"]})
-        # 4. TLC judges every distinct event
-        up = os.path.join(work, "unique.ndjson")
-        rows, total = dedup([(src, tp, b) for src, tp, b, _ in traces], up)
-        r = validate(up, len(rows))
-        judge(rows, r.rejects, verdict, pred_hits)
+            return ("random:%d" % s, tp, random_histories(tp), meta), {"histories": n, "length": length, "seed": s, "events": meta["events"]}
+
+        with ThreadPoolExecutor(max_workers=8) as ex:
+            f_gen = ex.submit(generate_and_replay)
+            f_wide = ex.submit(model_check_wide) if T["wide"] else None
+            f_direct = ex.submit(model_check_direct) if tier == "thorough" else None
+            f_rnd = [ex.submit(random_run, i, n, length) for i, (n, length) in enumerate(T["rnd"])]
+            tr, mc = f_gen.result()
+            traces = [tr]
+            cov["mc"].append(mc)
+            cov["gen"].append({"profile": "core", "max_entries": T["bound"], "transitions": len(tr[2])})
+            for fu in f_rnd:
+                tr, c = fu.result()
+                traces.append(tr)
+                cov["random"].append(c)
+            # 4. TLC judges every distinct event
+            up = os.path.join(work, "unique.ndjson")
+            rows, total = dedup([(src, tp, b) for src, tp, b, _ in traces], up)
+            rejects = validate_sharded(rows, work, T["shards"])
+            if f_wide:
+                cov["mc"].append(f_wide.result())
+            if f_direct:
+                cov["model_of_code_as_written"] = f_direct.result()
+        states = sum(m["distinct"] for m in cov["mc"])
+        transitions = sum(m["generated"] for m in cov["mc"])
+        judge(rows, rejects, verdict, pred_hits)
         hung = any(m.get("hung") for _, _, _, m in traces)
         if hung and "Terminates" not in pred_hits:
             raise vf.Infra("harness reported a hung compilation but TLC did not see the event")
@@ -219,6 +281,7 @@ def run(tier):
                     "outcome, stored-set size)",
             "event_kinds": kinds, "samples": samples,
             "model_check": cov["mc"], "generation": cov["gen"], "random": cov["random"],
+            "model_of_code_as_written": cov.get("model_of_code_as_written"),
             "predicates": sorted(STORE_PREDS | COMPILE_PREDS), "predicate_doc": DOC,
             "rejected_events_by_predicate": pred_hits,
             "known_findings_matched": verdict.known_hit,
@@ -269,7 +332,7 @@ def selftest():
             {"t": "write", "idx": 11, "e": {"kind": "resolver", "name": "b", "subsets": ["v1"], "defsub": "v1"}},
             {"t": "write", "idx": 12, "e": {"kind": "splitter", "name": "a", "legs": [{"svc": "", "sub": "", "dc": ""}, {"svc": "b", "sub": "", "dc": ""}]}},
             {"t": "write", "idx": 13, "e": {"kind": "resolver", "name": "c", "redirect": {"svc": "c", "sub": "v7", "dc": ""}, "subsets": ["v7"]}},
-            {"t": "write", "idx": 14, "e": {"kind": "router", "name": "a", "routes": [{"svc": "c", "sub": "v9", "dc": ""}]}},
+            {"t": "write", "idx": 14, "e": {"kind": "router", "name": "a", "routes": [{"svc": "b", "sub": "v9", "dc": ""}]}},
         ]
         bf = os.path.join(work, "beh.json")
         json.dump([hist], open(bf, "w"))
